@@ -96,7 +96,7 @@ func runC05(p *Prog, r *Report) {
 			cq := sm.Ev("select-recv", "recv.recvPipe.closeQ")
 			okGone := len(cq) == 1
 			if okGone {
-				arm := "select#0 == " + itoa(cq[0].Arm)
+				arm := "arm(<-" + cq[0].What + ")"
 				fr := sm.Ev("call", "mangos.(*Message).Free").Guarded(arm)
 				rt := sm.Ev("return", "").Guarded(arm)
 				okGone = len(fr) == 1 && len(rt) == 1 && rt[0].Args[0] == "nil"
